@@ -188,5 +188,16 @@ def _window_float(seed, tier):
     return {"evaluations": cases, "violations": bad, "extracted": src}
 
 
+def _diff_models(seed, tier):
+    """the coordinator itself (thread pool, barrier, exchange, termination test) is outside the verifier's reach:
+    bounded differential stand-in - random partitioned models (idle gaps, multi-hop cross-partition chains, daemon
+    traffic, end_time off the window grid, arrivals exactly on window boundaries) run by the real ParallelSimulation
+    and by one sequential Simulation must deliver the same multiset of (time, type, token) to every entity"""
+    return run_native_script("triage/c05_diff.py", 150 if tier == "quick" else 3000, seed)
+
+
+PROPERTY["bounded"].append({"name": "parallel-vs-sequential-differential",
+                            "bound": "150 (quick) / 3000 (thorough) seeded random models: 2-3 partitions x 1-2 entities, 1-6 tokens of 0-6 hops",
+                            "fn": _diff_models})
 PROPERTY["bounded"].append({"name": "window-arithmetic-float", "bound": "77 boundary pairs + 20000 (quick) / 2000000 (thorough) random (start_ns, window) pairs",
                             "fn": _window_float})
